@@ -238,8 +238,8 @@ def gen_search_case(rng, i, thorough):
         elif style == "gauss-many":
             # many comparable segments (a noise schedule changing sigma every epoch): the composed epsilon is
             # well above any single segment's; exact Gaussian truth at q = 1
-            k = rng.randint(12, 20)
-            s0 = rng.uniform(3.5, 6.0)
+            k = rng.choice([rng.randint(12, 20), rng.randint(40, 64)])   # tens of segments: a per-merge index slip of one bin adds up
+            s0 = rng.uniform(3.5, 6.0) * (1.0 if k <= 20 else 1.8)
             hist = [(round(s0 * rng.uniform(0.95, 1.05), 4), 1.0, rng.randint(1, 3)) for _ in range(k)]
         elif style == "many-groups":
             k = rng.randint(6, 14 if thorough else 10)
@@ -261,7 +261,10 @@ def gen_search_case(rng, i, thorough):
             continue
         # keep the oracle grid affordable: points ~ 2*(er+4)*ntot/(0.15*ee)
         if all(q == 1.0 for _, q, _ in hist) or 2 * (er + 6) * ntot / (0.15 * ee) <= (3_000_000 if thorough else 600_000):
-            return {"hist": hist, "delta": delta, "ee": ee}
+            case = {"hist": hist, "delta": delta, "ee": ee}
+            if rng.random() < 0.3:
+                case["de"] = delta / rng.choice([4, 10, 30])      # an explicitly supplied, non-negligible delta_error
+            return case
     return {"hist": [(1.0, 0.01, 10)], "delta": 1e-5, "ee": 0.05}
 
 
